@@ -229,8 +229,9 @@ def run(ctx):
             full = p.variant_of(("param", 2))
             is_full = full == ("Full",)
             is_len = lambda x: mentions(x, lambda s_: is_call_to(s_, "Vec::<T, A>::len", "Vec::<T, A>::is_empty"))
-            pos = [a for a in p.atoms if a[0] == "bool" and a[1][0] == "binop" and a[1][1] == "Lt" and a[1][2] == ("const", 0, "usize") and is_len(a[1][3])]
-            pos += [(a[0], a[1], not a[2], a[3]) for a in p.atoms if a[0] == "bool" and a[1][0] == "binop" and a[1][1] == "Eq" and ("const", 0, "usize") in (a[1][2], a[1][3]) and is_len(a[1])]
+            zero = lambda c: c[0] == "const" and c[1] == 0 and c[1] is not False          # the length may have been cast (`len() as u64`)
+            pos = [a for a in p.atoms if a[0] == "bool" and a[1][0] == "binop" and a[1][1] == "Lt" and zero(a[1][2]) and is_len(a[1][3])]
+            pos += [(a[0], a[1], not a[2], a[3]) for a in p.atoms if a[0] == "bool" and a[1][0] == "binop" and a[1][1] == "Eq" and (zero(a[1][2]) or zero(a[1][3])) and is_len(a[1])]
             pos += [(a[0], a[1], not a[2], a[3]) for a in p.atoms if a[0] == "bool" and is_call_to(a[1], "Vec::<T, A>::is_empty")]
             nonempty = not any(not a[2] for a in pos)      # no branch on this path established size == 0
             if any(a[2] for a in pos) and any(not a[2] for a in pos):
